@@ -103,7 +103,8 @@ def _case(draw, tier):
         "lat": draw(st.floats(-80.0, 80.0) | sampled_from([89.995, -89.995, 89.9, -89.9, 0.0])),
         "lat_from_node": draw(sampled_from([None, None, 0, 1, 2])),
         # a hair above / below a node's latitude (not equal to it)
-        "lat_offset": draw(sampled_from([0.0, 0.0, 1e-7, -1e-7, 3e-6, -3e-6])),
+        # ... or a little beyond it (inside the poleward bulge of a wide face's great-circle sides)
+        "lat_offset": draw(sampled_from([0.0, 0.0, 1e-7, -1e-7, 3e-6, -3e-6, 0.05, -0.05, 0.3, -0.3])),
         "data": draw(sampled_from([None, "face", "face", "node", "edge"])),
         "lead": draw(st.lists(st.integers(1, 3), max_size=2)),
         "threads": draw(sampled_from([1, 2, 4, 16])),
@@ -112,6 +113,9 @@ def _case(draw, tier):
         # supplied next to lon/lat); None = lon/lat only (topology) / unit sphere (MPAS)
         "radius": draw(sampled_from([None, None, None, 2.5, 6371229.0])),
     }
+    if sel == "const_lat" and draw(st.integers(0, 2)) == 0:
+        # the latitude extent of every face is the derived quantity a cross-section is most likely to lean on
+        case["materialise"] = sorted(set(case["materialise"]) | {"bounds"})
     if planted_box:
         case["planted"] = "small" if hi_ == 3.0 else "large"
         case["lon0"], case["lon_w"], case["lat0"], case["lat_h"] = planted_box
@@ -134,7 +138,9 @@ def classify(case):
     if case.get("planted"):
         labs.append("bbox-around-node-on-antimeridian:" + case["planted"] + ":" + case["element"].split()[0])
     if case["sel"] == "const_lat" and case["lat_from_node"] is not None:
-        labs.append("lat-equals-a-node-latitude" if not case.get("lat_offset") else "lat-a-hair-from-a-node-latitude")
+        labs.append("lat-equals-a-node-latitude" if not case.get("lat_offset") else ("lat-a-hair-from-a-node-latitude" if abs(case["lat_offset"]) < 1e-3 else "lat-just-beyond-a-node-latitude"))
+    if case["sel"] == "const_lat" and "bounds" in case["materialise"]:
+        labs.append("cross-section-after-bounds")
     if case["sel"] == "const_lat" and case["lat_from_node"] is None and abs(case["lat"]) > 89.0:
         labs.append("lat-next-to-a-pole")
     nontrivial = case["idx_mode"] != "all" and (bool(case["materialise"]) or case["data"] is not None or case["source"] == "mpas")
